@@ -289,8 +289,11 @@ def gen_front() -> Tuple[str, Dict[str, str]]:
             raise Broken(f"translator(front): {cname}.__option_descriptors__ is not {var}")
 
     # ---- hand-modelled control: AST digests ----
+    masks = {("validate_post_freeze", "Message"): [t for t, _ in raise_conditions(find_func(tree, "validate_post_freeze", "Message"))],
+             ("validate_enum_field_on_push", "Enum"): [raise_conditions(find_func(tree, "validate_enum_field_on_push", "Enum"))[0][0]]}
     for meth, cls in AST_SKELETONS:
-        skel[f"_ast.py:{cls}.{meth}"] = skeleton_digest(find_func(tree, meth, cls))
+        # expressions that are TRANSLATED (and proved about) are masked out of the structural digest
+        skel[f"_ast.py:{cls}.{meth}"] = skeleton_digest(find_func(tree, meth, cls), masks.get((meth, cls), ()))
     for cname in ("Uint", "Int", "Bool", "Byte", "Array", "Alias", "EnumField", "Enum", "MessageField", "Message",
                   "Proto", "IntegerConstant", "BooleanConstant", "StringConstant", "IntegerOption",
                   "BooleanOption", "StringOption", "Scope", "ScopeWithOptions", "BoundScope"):
